@@ -65,11 +65,19 @@ def plan_st(draw, tier):
             # every arm the bandit has is replaced by a new one: queries answered by arms without any trained state
             # (no tree, no regression rows, no observations), the context width known only from the last fit
             old = list(h.arms)
-            h.add_arm()
+            drain_first = len(old) <= 8 and not h.has_prob_list and draw(st.booleans())
+            if not drain_first:
+                h.add_arm()
             for a in old:
                 h.arms.remove(a)
                 h.removed.append(a)
                 h.ops.append(["remove_arm", a])
+            if drain_first:
+                # ... the other way round: the last arm is removed before the first new one is added (for a moment the
+                # bandit has no arm at all)
+                for _ in range(draw(st.integers(1, 2))):
+                    if h._free_labels():
+                        h.add_arm()
             for _ in range(draw(st.integers(1, 3))):
                 h.query()
     return {"config": cfg, "ops": h.ops, "family": h.family, "d": h.d}
